@@ -10,6 +10,7 @@ CONSTANTS
   ClientMayClose = FALSE
   HandlerMayClose = FALSE
   StartMayFail = FALSE
+  SpareFields = FALSE
   SeqRestart = FALSE
   Bug = "none"
   TrackAct = FALSE
